@@ -2,6 +2,7 @@
 import os, re, shutil
 from . import common as C
 from . import rawlib as R
+from . import physlib as P
 
 PID = "C04"
 MODULE = "CfbVerif.Props.C04"
@@ -87,31 +88,7 @@ def run(ctx):
                                         "# C04 (keeps C03): %s\n# image kept as %s (the layout before mutation: same name without _after)\n" % (v[4:1500], keep))
                     else:
                         ctx.undischarged.append("layout generator produced an image SpecCheck rejects (%s): %s" % (os.path.basename(f), v[4:200]))
-            # the two-level model loaded from each foreign image (Phys.ofImage), then the same API calls:
-            # file image (length + hash) and allocator caches after the load and after every call
-            if os.path.exists(lops):
-                C.driver(["phys", "--spec", lspec], lops, lmod)
-                lo, la, lb = open(lops).read().splitlines(), open(limp).read().splitlines(), open(lmod).read().splitlines()
-                lv = open(lspec).read().splitlines()
-                evaluations += len(lo)
-                start, shown = 0, 0
-                for i, (o, a, b) in enumerate(zip(lo, la, lb)):
-                    if o.startswith("load "):
-                        start = i
-                    if a != b and shown < 3 and not any(x.get("first_line") == start for x in ctx.disagreements):
-                        shown += 1
-                        img = o.split(" ")[1] if o.startswith("load ") else lo[start].split(" ")[1]
-                        keep = os.path.join(ctx.replaydir, "layout_lockstep_%d.cfb" % start)
-                        if os.path.exists(img):
-                            shutil.copy(img, keep)
-                        ctx.disagreements.append({"origin": "layout history starting at line %d (%s)" % (start, keep), "first_line": start, "level": "P", "history": [l[:120] for l in lo[start:i + 1]],
-                                                  "implementation": a[-220:], "model": b[-220:], "theorem": "CfbVerif.Props.C04 (Phys.ofImage / Phys.pstep on a foreign layout no longer correspond to the library)"})
-                    elif a == b and i < len(lv) and lv[i].startswith("bad ") and not o.startswith("load "):
-                        keep = os.path.join(ctx.replaydir, "layout_mutated_illformed_%d.cfb" % start)
-                        if os.path.exists(lo[start].split(" ")[1]):
-                            shutil.copy(lo[start].split(" ")[1], keep)
-                        C.add_violation(ctx, "mutate:spec:" + re.sub(r"\d+", "N", lv[i][4:60]).replace(" ", "_"), "a foreign layout mutated through the API is no longer well-formed: " + lv[i][4:300],
-                                        "# C04 (keeps C03): %s\n# foreign image kept as %s; calls applied to it:\n%s\n" % (lv[i][4:1500], keep, "\n".join(lo[start + 1:i + 1])))
+            evaluations += P.layout_lockstep(ctx, lops, limp, lmod, lspec)
             # the reader model on the same images
             ops, imp, mod = R.run_raw(ctx, gen, tag)
             evaluations += len(ops)
